@@ -20,19 +20,40 @@ P = hcm.P
 CMP = ("Lt", "Le", "Gt", "Ge", "Eq")
 
 
-def bucket_loops(b):
+def gate_list(b):
+    """The list the gate validates: the `Vec<f64>` parameter adjusted in place, or -- when the gate only borrows the configuration -- the one slice local that is
+    DEFAULT_BUCKETS or the caller's list.  Returns (term, mode) with mode "inplace" / "value"."""
+    if (b.local_ty(1) or "").startswith("std::vec::Vec<f64"):
+        return P(1), "inplace"
+    AS = ["AsRef::as_ref", "Deref::deref", "Vec::as_slice", "Borrow::borrow", "Vec::as_ref"]
+    for l in range(len(b.locals)):
+        if b.local_ty(l) not in ("&[f64]", "&'static [f64]"):
+            continue
+        alts = b.var_alts(l) if len(b.defs().get(l, [])) == 2 else []
+        if len(alts) != 2:
+            continue
+        dflt = [a for a in alts if any(isinstance(s_, tuple) and s_ and s_[0] == "constdef" and s_[1].endswith("::DEFAULT_BUCKETS") for s_ in subterms(a))]
+        conf = [a for a in alts if peel(a, transparent=AS) == P(1)]
+        if len(dflt) == 1 and len(conf) == 1:
+            return ("var", l), "value"
+    return P(1), "inplace"
+
+
+def bucket_loops(b, LIST=None):
     """Loops whose element comes from iterating the bucket vector (parameter 1): [(next call, elem term of the f64, index term or None, body entry, exit target)]"""
     res = []
+    if LIST is None:
+        LIST = gate_list(b)[0]
     for n in b.calls_to("Iterator::next"):
         base = ("field", ("downcast", n.result_term(), "Some"), "0")
         recv = peel(n.args[0], transparent=["IntoIterator::into_iter"])
-        if is_call(recv, "slice::windows") and peel(recv[2][0], transparent=["Deref::deref", "Vec::as_slice", "Vec::as_ref"]) == P(1) and const_int(recv[2][1]) == 2:
+        if is_call(recv, "slice::windows") and peel(recv[2][0], transparent=["Deref::deref", "Vec::as_slice", "Vec::as_ref"]) == LIST and const_int(recv[2][1]) == 2:
             # `for pair in buckets.windows(2)`: the element is pair[0], its successor pair[1]; the last bound is in no pair's first place
             si = b.switch_info(n.target)
-            res.append((n, ("win", base, 0), None, [t for v, t in si[1] if v == 1][0], [t for v, t in si[1] if v == 0][0], (P(1), ["windows"], [])))
+            res.append((n, ("win", base, 0), None, [t for v, t in si[1] if v == 1][0], [t for v, t in si[1] if v == 0][0], (LIST, ["windows"], [])))
             continue
         e = elem_of(base)
-        if not e or peel(e[0]) != P(1):
+        if not e or peel(e[0]) != LIST:
             continue
         si = b.switch_info(n.target)
         body_entry = [t for v, t in si[1] if v == 1][0]
@@ -61,7 +82,8 @@ def rule_R1_R2(ctx, f):
                    "for that element (false edge of is_nan, true edge of is_finite, true edge of an ordered comparison / == having the element as operand)")
     ctx.rule("R2", "strict increase: for adjacent elements (i, i+1 from one enumeration) the pair is rejected unless a < b — Ge(a,b) true->Err, Lt(a,b) false->Err, or mirrored — "
                    "and the test runs for every i < len-1")
-    loops = bucket_loops(b)
+    LIST, _mode = gate_list(b)
+    loops = bucket_loops(b, LIST)
     ctx.ob("R1", "gate|element-loop", len(loops) == 1 and (loops[0][5][1] == ["windows"] or not [a for a in loops[0][5][1] if a not in ("iter", "into_iter", "enumerate", "copied", "cloned", "peekable", "by_ref")]) if loops else False,
            "check_and_adjust_buckets must iterate all elements of the bucket list in one loop (found %d loops)" % len(loops), site=b.raw["span"]["at"])
     if len(loops) != 1:
@@ -88,7 +110,7 @@ def rule_R1_R2(ctx, f):
     for c in b.calls_to(["Iterator::any", "Iterator::all"]):
         ee = peel(c.args[0], transparent=["slice::iter", "IntoIterator::into_iter", "Deref::deref", "Vec::iter"])
         a = c.args[1]
-        if ee == P(1) and a[0] == "agg" and a[1] == "closure":
+        if ee == LIST and a[0] == "agg" and a[1] == "closure":
             cl = f.closure(a[2])
             r = cl.term_local(0) if cl else None
             be = b.branch_on_call(c)
@@ -122,7 +144,7 @@ def rule_R1_R2(ctx, f):
                 continue
             cnd, tt, tf = be
             # buckets.first().is_some_and(|x| x.is_nan()) -> Err   /   buckets[0].is_nan() -> Err
-            if is_call(cnd, "Option::is_some_and") and is_call(peel(cnd[2][0], transparent=[]), ["slice::first", "Vec::first"]) and peel(peel(cnd[2][0], transparent=[])[2][0]) == P(1):
+            if is_call(cnd, "Option::is_some_and") and is_call(peel(cnd[2][0], transparent=[]), ["slice::first", "Vec::first"]) and peel(peel(cnd[2][0], transparent=[])[2][0]) == LIST:
                 a_ = peel(cnd[2][1], transparent=[])
                 cl_ = f.closure(a_[2]) if (isinstance(a_, tuple) and a_ and a_[0] == "agg" and a_[1] == "closure") else None
                 r_ = peel(cl_.term_local(0), transparent=[]) if cl_ is not None else None
@@ -130,8 +152,8 @@ def rule_R1_R2(ctx, f):
                     first_ok = True
             if is_call(cnd, "f64::is_nan"):
                 x_ = peel(cnd[2][0], transparent=["Option::unwrap", "Option::expect"])
-                is_first = (is_call(x_, ["slice::first", "Vec::first"]) and peel(x_[2][0]) == P(1)) or \
-                           (isinstance(x_, tuple) and len(x_) == 3 and x_[0] == "index" and peel(x_[1]) == P(1) and const_int(x_[2]) == 0)
+                is_first = (is_call(x_, ["slice::first", "Vec::first"]) and peel(x_[2][0]) == LIST) or \
+                           (isinstance(x_, tuple) and len(x_) == 3 and x_[0] == "index" and peel(x_[1]) == LIST and const_int(x_[2]) == 0)
                 if is_first and rejecting(b, tt) and b.edge_dominates(bi, tf, n.bb):
                     first_ok = True
         ok = first_ok and n.bb not in leak2 and exit_t not in leak2
@@ -139,7 +161,7 @@ def rule_R1_R2(ctx, f):
         # the last bound is the first of no pair: it must be NaN-gated after the loop, on every path to the accepting exit (this is also the only test of a one-element list)
         def is_last(t):
             t = peel(t, transparent=["Option::unwrap", "Option::expect", "Option::unwrap_unchecked"])
-            return is_call(t, ["slice::last", "Vec::last"]) and peel(t[2][0], transparent=["Deref::deref", "Vec::as_slice"]) == P(1)
+            return is_call(t, ["slice::last", "Vec::last"]) and peel(t[2][0], transparent=["Deref::deref", "Vec::as_slice"]) == LIST
         tail_ref = []
         for bi in b.reach(exit_t):
             be = b.bool_edges(bi)
@@ -185,20 +207,20 @@ def rule_R1_R2(ctx, f):
             # buckets.get(i + 1) -> Some(next): the Some arm is itself the `i + 1 < len` guard
             if isinstance(t, tuple) and len(t) == 3 and t[0] == "field" and isinstance(t[1], tuple) and t[1][0] == "downcast" and t[1][2] == "Some":
                 g_ = peel(t[1][1], transparent=[])
-                if is_call(g_, ["slice::get", "Vec::get"]) and peel(g_[2][0]) == P(1):
+                if is_call(g_, ["slice::get", "Vec::get"]) and peel(g_[2][0]) == LIST:
                     i = g_[2][1]
                     plus1 = (i[0] == "field" and i[1][0] == "binop" and i[1][1] in ("AddWithOverflow", "Add") and idx is not None and peel(i[1][2]) == idx and const_int(i[1][3]) == 1) or \
                             (i[0] == "binop" and i[1] == "Add" and idx is not None and peel(i[2]) == idx and const_int(i[3]) == 1)
                     if plus1:
                         via_get.append(g_)
                         return True
-            if is_call(t, ["Index::index", "slice::get_unchecked"]) and peel(t[2][0]) == P(1):
+            if is_call(t, ["Index::index", "slice::get_unchecked"]) and peel(t[2][0]) == LIST:
                 i = t[2][1]
                 if i[0] == "field" and i[1][0] == "binop" and i[1][1] in ("AddWithOverflow", "Add") and idx is not None and peel(i[1][2]) == idx and const_int(i[1][3]) == 1:
                     return True
                 if i[0] == "binop" and i[1] == "Add" and idx is not None and peel(i[2]) == idx and const_int(i[3]) == 1:
                     return True
-            if t[0] == "index" and peel(t[1]) == P(1):
+            if t[0] == "index" and peel(t[1]) == LIST:
                 i = t[2]
                 if i[0] == "field" and i[1][0] == "binop" and idx is not None and peel(i[1][2]) == idx and const_int(i[1][3]) == 1:
                     return True
@@ -232,9 +254,9 @@ def rule_R1_R2(ctx, f):
             if g and g[0][0] == "binop" and b.dominates(bj, bi) and bj != bi:
                 op, x, y = g[0][1], g[0][2], g[0][3]
                 def len_minus_1(t):
-                    return t[0] == "field" and t[1][0] == "binop" and t[1][1] in ("SubWithOverflow", "Sub") and is_call(t[1][2], ["Vec::len", "slice::len"]) and peel(t[1][2][2][0]) == P(1) and const_int(t[1][3]) == 1
+                    return t[0] == "field" and t[1][0] == "binop" and t[1][1] in ("SubWithOverflow", "Sub") and is_call(t[1][2], ["Vec::len", "slice::len"]) and peel(t[1][2][2][0]) == LIST and const_int(t[1][3]) == 1
                 def plain_len(t):
-                    return is_call(t, ["Vec::len", "slice::len"]) and peel(t[2][0]) == P(1)
+                    return is_call(t, ["Vec::len", "slice::len"]) and peel(t[2][0]) == LIST
                 def i_plus_1(t):
                     return t[0] == "field" and t[1][0] == "binop" and t[1][1] in ("AddWithOverflow", "Add") and idx is not None and peel(t[1][2]) == idx and const_int(t[1][3]) == 1
                 if op == "Lt" and idx is not None and peel(x) == idx and len_minus_1(y) and b.edge_dominates(bj, g[1], bi):
@@ -268,12 +290,15 @@ def rule_R3(ctx, f):
     b = f.body(H + "check_and_adjust_buckets")
     if not b:
         return
-    loops = bucket_loops(b)
+    LIST, mode = gate_list(b)
+    loops = bucket_loops(b, LIST)
     if len(loops) != 1:
         return
     n, elem, idx, body_entry, exit_t, e = loops[0]
+    if mode == "value":
+        return _rule_R3_value(ctx, rid, f, b, LIST, n, exit_t)
     # the emptiness test that selects the defaults is the one before the validation loop (a later `debug_assert!(!buckets.is_empty())` is not it)
-    ie = [c for c in b.calls_to("Vec::is_empty") if peel(c.args[0]) == P(1) and b.dominates(c.bb, n.bb)]
+    ie = [c for c in b.calls_to("Vec::is_empty") if peel(c.args[0]) == LIST and b.dominates(c.bb, n.bb)]
     ok = False
     if len(ie) == 1:
         be = b.branch_on_call(ie[0])
@@ -285,7 +310,7 @@ def rule_R3(ctx, f):
                 # the filled value becomes the list: assigned to _1
                 ok = any(d[0] == "assign" and b.term_rvalue(d[3]) == fills[0].result_term() for d in b.defs().get(1, [])) or fills[0].matches("Vec::extend_from_slice")
     ctx.ob(rid, "default|empty-selects-default", ok, "an empty list must be replaced by DEFAULT_BUCKETS before validation", site=ie[0].span if ie else b.raw["span"]["at"])
-    pops = [c for c in b.calls_to(["Vec::pop", "Vec::truncate", "Vec::remove"]) if peel(c.args[0]) == P(1)]
+    pops = [c for c in b.calls_to(["Vec::pop", "Vec::truncate", "Vec::remove"]) if peel(c.args[0]) == LIST]
     ok = len(pops) == 1 and b.dominates(exit_t, pops[0].bb) and n.bb not in b.reach(pops[0].bb)
     ctx.ob(rid, "inf|pop-after-validation", ok, "the trailing +Inf may be dropped only after the whole list was validated (found %d pop sites)" % len(pops), site=pops[0].span if pops else b.raw["span"]["at"])
     if len(pops) == 1:
@@ -296,7 +321,7 @@ def rule_R3(ctx, f):
             if be and is_call(be[0], ["f64::is_sign_positive", "f64::is_infinite"]) and b.edge_dominates(bi, be[1], pops[0].bb):
                 guards.add(strip_generics(be[0][1]).split("::")[-1])
                 t = peel(be[0][2][0], transparent=["Option::unwrap", "Option::expect"])
-                tail_ok = tail_ok and is_call(t, ["slice::last", "Vec::last"]) and peel(t[2][0]) == P(1)
+                tail_ok = tail_ok and is_call(t, ["slice::last", "Vec::last"]) and peel(t[2][0]) == LIST
         if not guards:
             for bi in b.reach(exit_t):
                 be = b.bool_edges(bi)
@@ -304,7 +329,7 @@ def rule_R3(ctx, f):
                     x, y = be[0][2], be[0][3]
                     infs = [z for z in (x, y) if is_pos_inf_const(z)]
                     lasts = [z for z in (x, y) if is_call(peel(z, transparent=["Option::unwrap", "Option::expect"]), ["slice::last", "Vec::last"])]
-                    if len(infs) == 1 and len(lasts) == 1 and peel(peel(lasts[0], transparent=["Option::unwrap", "Option::expect"])[2][0]) == P(1):
+                    if len(infs) == 1 and len(lasts) == 1 and peel(peel(lasts[0], transparent=["Option::unwrap", "Option::expect"])[2][0]) == LIST:
                         guards = {"is_sign_positive", "is_infinite"}     # `last == +Inf` is the same test
         if not guards:
             for bi in b.reach(exit_t):
@@ -313,13 +338,98 @@ def rule_R3(ctx, f):
                     # `buckets.last() == Some(&f64::INFINITY)`
                     x, y = peel(be[0][2][0]), peel(be[0][2][1])
                     somes = [z for z in (x, y) if isinstance(z, tuple) and z and z[0] == "agg" and z[2].endswith("Option::Some") and is_pos_inf_const(peel(z[3][0]))]
-                    lasts = [z for z in (x, y) if is_call(z, ["slice::last", "Vec::last"]) and peel(z[2][0]) == P(1)]
+                    lasts = [z for z in (x, y) if is_call(z, ["slice::last", "Vec::last"]) and peel(z[2][0]) == LIST]
                     if len(somes) == 1 and len(lasts) == 1:
                         guards = {"is_sign_positive", "is_infinite"}
         ctx.ob(rid, "inf|pop-guard", guards == {"is_sign_positive", "is_infinite"} and tail_ok,
                "pop must be guarded by is_sign_positive && is_infinite of buckets.last() (found guards %s)" % sorted(guards), site=pops[0].span)
     oks = ok_payloads(b)
-    ctx.ob(rid, "ok-value", len(oks) == 1 and peel(oks[0]) == P(1), "the accepted configuration returned must be the adjusted list itself", site=b.raw["span"]["at"])
+    ctx.ob(rid, "ok-value", len(oks) == 1 and peel(oks[0]) == LIST, "the accepted configuration returned must be the adjusted list itself", site=b.raw["span"]["at"])
+
+
+def _rule_R3_value(ctx, rid, f, b, LIST, n, exit_t):
+    """R3 for a gate that borrows the configuration: `let list: &[f64] = if configured is empty { DEFAULT_BUCKETS } else { configured }`, validation of `list`, and
+    `Ok((list without a trailing +Inf).to_vec())`."""
+    AS = ["AsRef::as_ref", "Deref::deref", "Vec::as_slice", "Borrow::borrow", "Vec::as_ref"]
+    l = LIST[1]
+    d_dflt = d_conf = None
+    for d in b.defs().get(l, []):
+        if d[0] != "assign":
+            continue
+        t_ = b.term_rvalue(d[3], (d[1], d[2]))
+        if peel(t_, transparent=AS) == P(1):
+            d_conf = d[1]
+        elif any(isinstance(s_, tuple) and s_ and s_[0] == "constdef" and s_[1].endswith("::DEFAULT_BUCKETS") for s_ in subterms(t_)):
+            d_dflt = d[1]
+
+    def is_conf(t):
+        return peel(t, transparent=AS) == P(1)
+    ok = False
+    site = b.raw["span"]["at"]
+    for bi in b.reachable_blocks():
+        be = b.bool_edges(bi)
+        if not be:
+            continue
+        cnd, tt, tf = be
+        if cnd[0] == "unop" and cnd[1] == "Not":
+            cnd, tt, tf = cnd[2], tf, tt
+        empty_t = None
+        if is_call(cnd, ["slice::is_empty", "Vec::is_empty"]) and is_conf(cnd[2][0]):
+            empty_t, full_t = tt, tf
+        elif cnd[0] == "binop" and cnd[1] in ("Eq", "Ne") and const_int(cnd[3]) == 0:
+            x = peel(cnd[2])
+            if (x[0] == "unop" and x[1] == "PtrMetadata" and is_conf(x[2])) or (is_call(x, ["slice::len", "Vec::len"]) and is_conf(x[2][0])):
+                empty_t, full_t = (tt, tf) if cnd[1] == "Eq" else (tf, tt)
+        if empty_t is None or d_dflt is None or d_conf is None:
+            continue
+        site = b.span_of_block(bi)
+        ok = b.edge_dominates(bi, empty_t, d_dflt) and b.edge_dominates(bi, full_t, d_conf) and b.dominates(bi, n.bb) and n.bb not in b.reach(bi, avoid_blocks=[d_dflt, d_conf])
+    ctx.ob(rid, "default|empty-selects-default", ok, "an empty list must be replaced by DEFAULT_BUCKETS before validation", site=site)
+    # the returned list: the validated one, without its last element exactly when that is +Inf
+    oks = ok_payloads(b)
+    okv = okpop = okguard = False
+    psite = b.raw["span"]["at"]
+    if len(oks) == 1:
+        r = peel(oks[0], transparent=[])
+        if is_call(r, ["slice::to_vec", "ToOwned::to_owned", "From::from", "Into::into", "Vec::from"]) and len(r[2]) == 1:
+            x = peel(r[2][0])
+            if isinstance(x, tuple) and len(x) == 2 and x[0] == "var":
+                rest_d = whole_d = None
+                sl = None
+                ds = [d for d in b.defs().get(x[1], []) if d[0] == "assign"]
+                for d in ds:
+                    t_ = peel(b.term_rvalue(d[3], (d[1], d[2])))
+                    if t_ == LIST:
+                        whole_d = d[1]
+                    elif isinstance(t_, tuple) and len(t_) == 3 and t_[0] == "field" and str(t_[2]) == "1" and isinstance(t_[1], tuple) and t_[1][0] == "field" and str(t_[1][2]) == "0" \
+                            and isinstance(t_[1][1], tuple) and t_[1][1][0] == "downcast" and t_[1][1][2] == "Some" and is_call(peel(t_[1][1][1], transparent=[]), "slice::split_last") \
+                            and peel(peel(t_[1][1][1], transparent=[])[2][0]) == LIST:
+                        rest_d, sl = d[1], peel(t_[1][1][1], transparent=[])
+                okv = len(ds) == 2 and rest_d is not None and whole_d is not None
+                if okv:
+                    psite = b.span_of_block(rest_d)
+                    okpop = b.dominates(exit_t, rest_d) and b.dominates(exit_t, whole_d) and n.bb not in b.reach(rest_d)
+                    tail = ("deref", ("field", ("field", ("downcast", sl, "Some"), "0"), "0"))
+                    guards = set()
+                    gl = []
+                    for bi in b.reach(exit_t):
+                        be = b.bool_edges(bi)
+                        if not be:
+                            continue
+                        cnd, tt, tf = be
+                        if cnd[0] == "binop" and cnd[1] == "Eq" and b.edge_dominates(bi, tt, rest_d):
+                            if (peel(cnd[2]) == peel(tail) and is_pos_inf_const(cnd[3])) or (peel(cnd[3]) == peel(tail) and is_pos_inf_const(cnd[2])):
+                                guards = {"is_sign_positive", "is_infinite"}
+                                gl.append((bi, tt))
+                        if is_call(cnd, ["f64::is_sign_positive", "f64::is_infinite"]) and peel(cnd[2][0]) == peel(tail) and b.edge_dominates(bi, tt, rest_d):
+                            guards.add(strip_generics(cnd[1]).split("::")[-1])
+                            gl.append((bi, tt))
+                    # ... and the whole list is returned only when the guard failed: past the last test's true edge only the shortened list is reachable
+                    inner = [tt for bi, tt in gl if not any(bj in b.reach(tt) for bj, _ in gl if bj != bi)]
+                    okguard = guards == {"is_sign_positive", "is_infinite"} and len(inner) == 1 and whole_d not in b.reach(inner[0])
+    ctx.ob(rid, "inf|pop-after-validation", okv and okpop, "the trailing +Inf may be dropped only after the whole list was validated (value form: the result is the list or the list without its last element)", site=psite)
+    ctx.ob(rid, "inf|pop-guard", okv and okguard, "the last element must be dropped exactly when it is +Inf (is_sign_positive && is_infinite, or == f64::INFINITY)", site=psite)
+    ctx.ob(rid, "ok-value", okv, "the accepted configuration returned must be the adjusted list itself", site=b.raw["span"]["at"])
 
 
 def observer_summary(ctx, rid, f, path, key, value, kind):
